@@ -6,6 +6,7 @@ import ast
 import itertools
 from fractions import Fraction as Fr
 
+from ..forks import Fork
 from ..core import Report, Undecided, AnalysisError
 from ..srcmodel import Model, bind_call, return_exprs
 from ..forks import explore
@@ -102,6 +103,7 @@ def check(ctx):
     _surfaces(rep, model)
     _curved_detectors(rep, model)
     _det_axes(rep, model)
+    _surface_normal(rep, model)
     _composition(rep, model)
     _forwarding(rep, model)
     _coverage(rep, model)
@@ -895,6 +897,131 @@ def trig_reduce(r):
 # --------------------------------------------------------------------------
 # R3b: detector axes under motion = rotation matrix applied to each initial
 # axis, for one angle and for stacks of angles (entry by entry)
+def _surface_normal(rep, model):
+    """R8: the default `Detector.surface_normal` evaluated on symbolic,
+    generic (not perpendicular, not normalised) tangent vectors, single and
+    stacked parameters: the result is perpendicular to both tangents, has
+    unit length and the documented orientation."""
+    import numpy as _np
+    from ..namodel import NA, NAHooks, NAInterp, objarr
+    from .. import posalg as PA
+    from ..posalg import Signs
+    ci = model.get('Detector')
+    if ci is None or 'surface_normal' not in ci.methods:
+        raise AnalysisError('anchor vanished: Detector.surface_normal')
+    signs = Signs(set())
+
+    def tang(shape, tag='t'):
+        a = _np.empty(shape, dtype=object)
+        for idx in _np.ndindex(*shape):
+            a[idx] = Rat.var('%s%s' % (tag, ''.join(map(str, idx))))
+        return NA(a, 'float64')
+
+    class H(NAHooks):
+        def __init__(self, ndim, sdim, deriv):
+            self.ndim, self.sdim, self.deriv = ndim, sdim, deriv
+
+        def on_getattr(self, interp, obj, name):
+            if isinstance(obj, Inst):
+                if name == 'ndim':
+                    return self.ndim
+                if name == 'space_ndim':
+                    return self.sdim
+                if name == 'surface_deriv':
+                    return Builtin('surface_deriv', lambda p: NA(
+                        self.deriv.a.copy(), 'float64'))
+            return NAHooks.on_getattr(self, interp, obj, name)
+
+        def linalg_norm(self, I, v, ord=None, axis=None, keepdims=False,
+                        **k):
+            if ord not in (None, 2):
+                raise Undecided('norm with ord=%r' % (ord,))
+            sq = _np.frompyfunc(lambda x: to_rat(x) * to_rat(x), 1, 1)(v.a)
+            tot = sq.sum(axis=axis, keepdims=keepdims)
+            root = lambda x: PA.root(to_rat(x), 2, signs)
+            if isinstance(tot, _np.ndarray):
+                return NA(_np.frompyfunc(root, 1, 1)(tot), 'float64')
+            return root(tot)
+
+        def atom1(self, name):
+            if name == 'sqrt':
+                return lambda x: PA.root(to_rat(x), 2, signs)
+            return NAHooks.atom1(self, name)
+
+        def on_decide(self, interp, cond, node):
+            if cond.rat is not None and cond.key.startswith('eq0:'):
+                return False          # generic tangent entries
+            return NotImplemented
+    from .c05b import witness
+    WIT = [witness(45), witness(46)]
+    n = 0
+    for ndim, sdim, stack in ((2, 3, None), (2, 3, 2), (1, 2, None),
+                              (1, 2, 2)):
+        n += 1
+        tag = 'Detector.surface_normal[%dd detector in %dd, %s]' % (
+            ndim, sdim, 'one parameter' if stack is None
+            else '%d parameters' % stack)
+        fn = ci.methods['surface_normal']
+        try:
+            if ndim == 2:
+                deriv = tang((2, 3) if stack is None else (stack, 2, 3))
+            else:
+                deriv = tang((2,) if stack is None else (stack, 2))
+            I = NAInterp(model, {}, H(ndim, sdim, deriv))
+            out = I.call(I.getattr_value(Inst(ci), 'surface_normal'),
+                         [Rat.var('u')], {})
+            if not isinstance(out, NA):
+                raise Undecided('result %r' % (out,))
+            probs = []
+            want_shape = ((sdim,) if stack is None else (stack, sdim))
+            if out.a.shape != want_shape:
+                probs.append('shape %r, documented %r' % (out.a.shape,
+                                                          want_shape))
+            else:
+                for s_ in ([None] if stack is None else range(stack)):
+                    nv = [to_rat(x) for x in (out.a if s_ is None
+                                              else out.a[s_])]
+                    d = deriv.a if s_ is None else deriv.a[s_]
+                    ts = [[to_rat(x) for x in d[k]] for k in range(2)] \
+                        if ndim == 2 else [[to_rat(x) for x in d]]
+                    dot = lambda a, b: sum((x * y for x, y in zip(a, b)),
+                                           Rat.const(0))
+                    for k, t in enumerate(ts):
+                        if not PA.equal_exact(dot(nv, t), Rat.const(0),
+                                              WIT):
+                            probs.append('not perpendicular to tangent %d'
+                                         % k)
+                    if not PA.equal_exact(dot(nv, nv), Rat.const(1), WIT):
+                        probs.append('|normal|^2 = %r, not 1 (tangents need '
+                                     'not be perpendicular or normalised)'
+                                     % (PA.reduce_full(dot(nv, nv)),))
+                    # orientation: det(t0, t1, n) > 0 resp. det(n, t) > 0
+                    if ndim == 2:
+                        a, b = ts
+                        cr = [a[1] * b[2] - a[2] * b[1],
+                              a[2] * b[0] - a[0] * b[2],
+                              a[0] * b[1] - a[1] * b[0]]
+                        ori = dot(cr, nv)
+                    else:
+                        t = ts[0]
+                        ori = nv[0] * t[1] - nv[1] * t[0]
+                    for env in WIT:
+                        if PA.num_eval(ori, env) <= 0:
+                            probs.append('orientation is left-handed')
+                            break
+            if probs:
+                rep.violation('R8', tag, '; '.join(probs[:3]), DET,
+                              fn.lineno)
+            else:
+                rep.holds('R8', tag, 'unit length, perpendicular to the '
+                          'tangents, right-handed, for generic tangents')
+        except (Undecided, Fork) as e:
+            rep.undecided('R8', tag, str(e), DET, fn.lineno)
+        except PyRaise as e:
+            rep.violation('R8', tag, 'raises %s' % e.name, DET, fn.lineno)
+    rep.floor('R8', 'surface normal evaluations', n, 4)
+
+
 def _det_axes(rep, model):
     import numpy as _np
     from ..namodel import NA, NAHooks, NAInterp, objarr
